@@ -16,6 +16,7 @@ import (
 	"github.com/dlclark/regexp2"
 
 	"github.com/cloudwego/thriftgo/parser"
+	"github.com/cloudwego/thriftgo/sdk"
 	"github.com/cloudwego/thriftgo/semantic"
 	"github.com/cloudwego/thriftgo/tool/trimmer/dump"
 	"github.com/cloudwego/thriftgo/tool/trimmer/trim"
@@ -52,6 +53,9 @@ func trimArg(ast *parser.Thrift, c *CfgD) *trim.TrimASTArg {
 		DisablePreserveComment: c.DisableComment, PreserveStructs: append([]string(nil), c.PreservedStructs...)}
 }
 
+// statistics of the most recent TrimAST call
+var lastTrim *trim.TrimResultInfo
+
 func runTrim(arg *trim.TrimASTArg) (err error, panicked bool) {
 	defer func() {
 		if r := recover(); r != nil {
@@ -65,7 +69,7 @@ func runTrim(arg *trim.TrimASTArg) (err error, panicked bool) {
 		os.Stdout = devnull
 		defer func() { devnull.Close(); os.Stdout = old }()
 	}
-	_, err = trim.TrimAST(arg)
+	lastTrim, err = trim.TrimAST(arg)
 	return err, false
 }
 
@@ -172,6 +176,7 @@ func cfgVL(p *ProgD, c *CfgD) (string, error) {
 // ---------------------------------------------------------------- one case
 
 type result struct {
+	out      *MProg
 	op, impl string
 	fails    []vl.OracleFail
 	classes  []string
@@ -220,6 +225,7 @@ func check(cs *Case) (res result) {
 	}
 	arg := trimArg(ast, &cs.Cfg)
 	terr, panicked := runTrim(arg)
+	nothingTrimmed := terr == nil && lastTrim != nil && lastTrim.StructsTrimmed == 0 && lastTrim.FieldsTrimmed == 0
 	withRefs := terr == nil
 	res.op = "T " + vl.B(withRefs) + cv + model.VL()
 	if panicked {
@@ -229,11 +235,19 @@ func check(cs *Case) (res result) {
 		res.impl = progFromAST(ast).Render(withRefs, q)
 	}
 	res.shapes = shapes(p, &cs.Cfg)
+	if nothingTrimmed {
+		res.shapes = append(res.shapes, "nothing-trimmed (TrimResultInfo reports 0 structures, 0 fields)")
+	}
 	if terr != nil {
 		fail("trim-error", "TrimAST fails on an accepted program", "nil error", terr.Error())
 		return
 	}
 	out := progFromAST(ast)
+	res.out = out
+	if e := resolvedAST(ast); e != nil {
+		fail("unresolved-result", "the AST TrimAST returns is not a resolved AST", "every file resolved, every reference bound", e.Error())
+		return
+	}
 	oracle(cs, out, fail)
 	// validity of the result as IDL text, and idempotence
 	dumped, err := dumpAll(ast)
@@ -258,6 +272,24 @@ func check(cs *Case) (res result) {
 	}
 	if twice := progFromAST(ast2).Render(true, nil); twice != once {
 		fail("not-idempotent", "trimming the result again changes it", once, twice)
+		return
+	}
+	// nothing was removed by that trim: the AST must come back as resolved as it went in
+	if e := resolvedAST(ast2); e != nil {
+		fail("unresolved-result", "trimming an already minimal program returns an AST that is not resolved", "every file resolved, every reference bound", e.Error())
+		return
+	}
+	// second trim of the same AST object
+	if terr, _ := runTrim(trimArg(ast, &cs.Cfg)); terr != nil {
+		fail("second-trim-error", "trimming the same AST again fails", "nil error", terr.Error())
+		return
+	}
+	if again := progFromAST(ast).Render(true, nil); again != out.Render(true, nil) {
+		fail("not-idempotent", "trimming the same AST again changes it", out.Render(true, nil), again)
+		return
+	}
+	if e := resolvedAST(ast); e != nil {
+		fail("unresolved-result", "a second trim of the same AST returns an AST that is not resolved", "every file resolved, every reference bound", e.Error())
 	}
 	return
 }
@@ -577,25 +609,34 @@ func oracle(cs *Case, out *MProg, fail func(class, what string, expected, observ
 				}
 			}
 		}
+		// the selection rule of the documentation plus the prefix rule of the code: the regexp finds the
+		// name and the pattern text is not a strict prefix of it
+		rule := func(full string) bool {
+			for i, re := range pats {
+				if m, _ := re.MatchString(full); m && (full == lits[i] || !strings.HasPrefix(full, lits[i])) {
+					return true
+				}
+			}
+			return false
+		}
 		for fi, of := range outFile {
 			for _, s := range of.Services {
 				for _, fn := range s.Fns {
 					ok := false
 					for _, fa := range fathers[sk{fi, s.Name}] {
-						for _, re := range pats {
-							if m, _ := re.MatchString(fa + "." + fn.Name); m {
-								ok = true
-							}
+						if rule(fa + "." + fn.Name) {
+							ok = true
 						}
 					}
 					if !ok {
-						fail("unmatched-method-kept", fmt.Sprintf("%s.%s survives although no -m pattern matches it", s.Name, fn.Name), "removed", "kept")
+						fail("unmatched-method-kept", fmt.Sprintf("%s.%s survives although no -m pattern selects it (a pattern that is a strict prefix of the name does not count)", s.Name, fn.Name), "removed", "kept")
 						return
 					}
 				}
 			}
 		}
-		// a method named exactly through a root service (its own or an inherited one) remains, and
+		// a method selected through a root service (its own or an inherited one, under the name of any service
+		// on the way) remains, and
 		// the extends chain from the root service to the service that declares it stays intact
 		findOut := func(fi int, name string) *MSvc {
 			of := outFile[fi]
@@ -615,8 +656,14 @@ func oracle(cs *Case, out *MProg, fail func(class, what string, expected, observ
 			for depth := 0; depth < 50; depth++ {
 				path = append(path, sk{cf, cur.Name})
 				for _, fn := range cur.Fns {
-					for _, l := range lits {
-						if l != rs.Name+"."+fn.Name {
+					selected := false
+					for _, pn := range path {
+						if rule(pn.n + "." + fn.Name) {
+							selected = true
+						}
+					}
+					for _, l := range []string{rs.Name + "." + fn.Name} {
+						if !selected {
 							continue
 						}
 						os := findOut(cf, cur.Name)
@@ -832,6 +879,46 @@ func run(repo, dir string, seed uint64, tier, trimmerBin, thriftgoBin string) er
 		}
 	}
 	attempts := map[string]int{}
+	report := func(cs *Case, res result) {
+		for _, cl := range res.classes {
+			out.Count("oracle-fail:" + cl)
+			if len(perClass[cl]) >= 2 || attempts[cl] >= 4 {
+				continue
+			}
+			attempts[cl]++
+			small := shrink(cs, cl)
+			sres := check(small)
+			for j, f := range sres.fails {
+				if sres.classes[j] == cl {
+					dup := false
+					for _, g := range perClass[cl] {
+						if g.Key == f.Key {
+							dup = true
+						}
+					}
+					if !dup {
+						perClass[cl] = append(perClass[cl], f)
+						if len(perClass[cl]) == 1 {
+							classOrder = append(classOrder, cl)
+						}
+					}
+					break
+				}
+			}
+		}
+	}
+	var minimal []*ProgD
+	maxE2E := 3
+	if tier == "thorough" {
+		maxE2E = 20
+	}
+	for _, cc := range corpus() {
+		if cc.name == "fully-used-two-files" {
+			q := cc.c.clone().Prog
+			minimal = append(minimal, &q)
+			maxE2E++
+		}
+	}
 	var progs []*ProgD
 	for i := 0; i < n; i++ {
 		p := genProg(r)
@@ -854,30 +941,24 @@ func run(repo, dir string, seed uint64, tier, trimmerBin, thriftgoBin string) er
 			if i < 2 && k < 2 {
 				out.Sample(map[string]interface{}{"cfg": cfg, "idl": p.Texts()})
 			}
-			for _, cl := range res.classes {
-				out.Count("oracle-fail:" + cl)
-				if len(perClass[cl]) >= 2 || attempts[cl] >= 4 {
-					continue
-				}
-				attempts[cl]++
-				small := shrink(cs, cl)
-				sres := check(small)
-				for j, f := range sres.fails {
-					if sres.classes[j] == cl {
-						dup := false
-						for _, g := range perClass[cl] {
-							if g.Key == f.Key {
-								dup = true
-							}
-						}
-						if !dup {
-							perClass[cl] = append(perClass[cl], f)
-							if len(perClass[cl]) == 1 {
-								classOrder = append(classOrder, cl)
-							}
-						}
-						break
+			report(cs, res)
+			// an already minimal program: what the trimmer kept, trimmed again from scratch (nothing to remove)
+			if len(res.classes) == 0 && res.out != nil && r.Chance(40) {
+				q := project(p, res.out)
+				cs2 := &Case{Prog: *q, Cfg: cfg}
+				res2 := check(cs2)
+				out.Count("config:minimal-program(" + fam + ")")
+				for _, sh := range res2.shapes {
+					if strings.HasPrefix(sh, "nothing-trimmed") {
+						out.Count("minimal-program:" + sh)
 					}
+				}
+				if res2.op != "" {
+					out.Case(res2.op, res2.impl, true)
+				}
+				report(cs2, res2)
+				if len(res2.classes) == 0 && len(minimal) < maxE2E && len(q.order()) > 1 && len(allSvcFns(q)) > 0 {
+					minimal = append(minimal, q)
 				}
 			}
 		}
@@ -889,6 +970,10 @@ func run(repo, dir string, seed uint64, tier, trimmerBin, thriftgoBin string) er
 				out.Fail(perClass[cl][round])
 			}
 		}
+	}
+	// end to end, in process: `thriftgo -g go:trim_idl` on programs in which nothing can be trimmed
+	for i, q := range minimal {
+		generateTrimIDL(dir, out, i, q)
 	}
 	if trimmerBin != "" || thriftgoBin != "" {
 		nb := 6
@@ -985,6 +1070,42 @@ func binaryLevel(dir string, out *vl.Out, progs []*ProgD, n int, trimmerBin, thr
 		os.RemoveAll(filepath.Join(dir, fmt.Sprintf("bin%d", i)))
 	}
 	return nil
+}
+
+// generateTrimIDL runs the compiler front to back (sdk.InvokeThriftgo) with and without trim_idl on a
+// program written to disk; trim_idl must succeed whenever the plain run does.
+func generateTrimIDL(dir string, out *vl.Out, i int, p *ProgD) {
+	base := filepath.Join(dir, fmt.Sprintf("e2e%d", i))
+	src := filepath.Join(base, "src")
+	os.MkdirAll(src, 0o755)
+	defer os.RemoveAll(base)
+	for path, text := range p.Texts() {
+		os.WriteFile(filepath.Join(src, path), []byte(text), 0o644)
+	}
+	main := filepath.Join(src, p.Files[0].Path)
+	invoke := func(opt, outDir string) (err error) {
+		defer func() {
+			if r := recover(); r != nil {
+				err = fmt.Errorf("panic: %v", r)
+			}
+		}()
+		oldOut, oldErr := os.Stdout, os.Stderr
+		if devnull, e := os.OpenFile(os.DevNull, os.O_WRONLY, 0); e == nil {
+			os.Stdout, os.Stderr = devnull, devnull
+			defer func() { devnull.Close(); os.Stdout, os.Stderr = oldOut, oldErr }()
+		}
+		return sdk.InvokeThriftgo(nil, "thriftgo", "-r", "-g", opt, "-o", outDir, main)
+	}
+	if err := invoke("go", filepath.Join(base, "plain")); err != nil {
+		out.Count("e2e:plain -g go fails (skipped)")
+		return
+	}
+	out.Count("e2e:thriftgo -g go:trim_idl (in process, nothing to trim)")
+	if err := invoke("go:trim_idl", filepath.Join(base, "trim")); err != nil {
+		cs := &Case{Prog: *p}
+		out.Fail(vl.OracleFail{Key: caseKey("generate-trim-idl", cs), What: "thriftgo -g go:trim_idl fails where plain -g go succeeds",
+			Input: map[string]interface{}{"class": "generate-trim-idl", "case": cs, "idl": p.Texts()}, Expected: "code generated", Observed: err.Error()})
+	}
 }
 
 func replay(file string) error {
